@@ -101,7 +101,10 @@ Section SeekProofs.
     advance_one i e (with_meta w la ma tx) =
     (with_meta (fst (advance_one i e w)) la ma tx, snd (advance_one i e w)).
   Proof.
-    unfold Seek.advance_one. destruct (e_patch e) as [p|]; [|reflexivity].
+    unfold Seek.advance_one. destruct (negb (e_tick e =? i)); [reflexivity|].
+    change (parent_linked St P e (with_meta w la ma tx)) with (parent_linked St P e w).
+    destruct (negb (parent_linked St P e w)); [reflexivity|].
+    destruct (e_patch e) as [p|]; [|reflexivity].
     cbn [ws_state with_meta]. destruct (apply (ws_state w) p) as [s'|s']; [|reflexivity].
     destruct (negb (root s' =? e_root e)); [reflexivity|].
     destruct (negb (commit_hash (root s') (e_parents e) (e_pdig e) (p_policy p) =? e_commit e)); [reflexivity|].
@@ -154,7 +157,9 @@ Section SeekProofs.
     ws_warp w' = ws_warp w /\ ws_init w' = ws_init w /\ (exists a, ws_hist w' = ws_hist w ++ [a]) /\
     ws_root St root w' = e_root e.
   Proof.
-    unfold Seek.advance_one. destruct (e_patch e) as [p|]; [|discriminate].
+    unfold Seek.advance_one. destruct (negb (e_tick e =? i)); [discriminate|].
+    destruct (negb (parent_linked St P e w)); [discriminate|].
+    destruct (e_patch e) as [p|]; [|discriminate].
     destruct (apply (ws_state w) p) as [s'|s']; [|discriminate].
     destruct (root s' =? e_root e) eqn:ER; cbn [negb]; [|discriminate].
     destruct (negb (commit_hash (root s') (e_parents e) (e_pdig e) (p_policy p) =? e_commit e)); [discriminate|].
@@ -315,17 +320,45 @@ Section SeekProofs.
     - intros H; inversion H; subst. apply N.ltb_lt in E. split; [left; reflexivity|exact E].
   Qed.
 
+  (* what a successful restore_replay_base has checked (/repo 90bd2fa added the metadata part): the state comes from
+     the checkpoint the lookup found, its root and hash equal the expected root of its tick, it carries exactly
+     `tick` history artifacts and, for tick > 0, the last one is the commit recorded by entry tick-1 *)
+  Lemma restore_base_cases st b target w start :
+    restore_base st b target = inr (w, start) ->
+    match cp_before St (st_cps st) (lookup_tick target) with
+    | Some (t, (hash, cw)) =>
+        t = start /\ cw = w /\
+        expected_root_at St P st t = Some hash /\ ws_root St root cw = hash /\
+        lenN (ws_hist cw) = t /\
+        (t <> 0 -> exists e a, nthN (st_entries st) (t - 1) = Some e /\ last_opt (ws_hist cw) = Some a /\
+                               a_commit a = e_commit e)
+    | None => start = 0 /\ w = base_from_initial St b
+    end.
+  Proof.
+    unfold Seek.restore_base.
+    destruct (cp_before St (st_cps st) (lookup_tick target)) as [[t [hash cw]]|].
+    - destruct (expected_root_at St P st t) as [x|]; [|discriminate].
+      destruct (hash =? x) eqn:E1; cbn [negb]; [|discriminate]. apply N.eqb_eq in E1.
+      destruct (ws_root St root cw =? x) eqn:E2; cbn [negb]; [|discriminate]. apply N.eqb_eq in E2.
+      destruct (lenN (ws_hist cw) =? t) eqn:E3; cbn [negb]; [|discriminate]. apply N.eqb_eq in E3.
+      destruct (t =? 0) eqn:E0.
+      + apply N.eqb_eq in E0. intros H; inversion H; subst. repeat split; auto; try congruence; try (intros Hn; congruence).
+      + destruct (nthN (st_entries st) (t - 1)) as [e|] eqn:EN; [|discriminate].
+        destruct (last_opt (ws_hist cw)) as [a|] eqn:EL; [|discriminate].
+        destruct (a_commit a =? e_commit e) eqn:EC; [|discriminate]. apply N.eqb_eq in EC.
+        intros H; inversion H; subst. repeat split; auto; try congruence; try (intros _; exists e, a; auto).
+    - intros H; inversion H; subst. auto.
+  Qed.
+
   Lemma restore_base_sound st b target w start :
     cps_valid st b -> restore_base st b target = inr (w, start) ->
     start <= target /\ replay (st_entries st) b start = (w, None).
   Proof.
-    intros CV. unfold Seek.restore_base.
+    intros CV R. apply restore_base_cases in R.
     destruct (cp_before St (st_cps st) (lookup_tick target)) as [[t [hash cw]]|] eqn:B.
-    - apply cp_before_in in B. destruct B as [Hin Hlt].
-      destruct (expected_root_at St P st t); [|discriminate].
-      destruct (negb (hash =? n)); [discriminate|]. destruct (negb (ws_root St root cw =? n)); [discriminate|].
-      intros H; inversion H; subst. split; [apply lookup_tick_le; exact Hlt|]. apply (CV _ _ _ Hin).
-    - intros H; inversion H; subst. split; [lia|]. apply replay_zero.
+    - apply cp_before_in in B. destruct B as [Hin Hlt]. destruct R as (-> & -> & _).
+      split; [apply lookup_tick_le; exact Hlt|]. apply (CV _ _ _ Hin).
+    - destruct R as [-> ->]. split; [lia|]. apply replay_zero.
   Qed.
 
   Lemma replay_at_sound st b target w :
@@ -339,6 +372,28 @@ Section SeekProofs.
     pose proof (verifies_upto _ _ target V EL) as Vt.
     destruct (replay (st_entries st) b target) as [wt et] eqn:RT. cbn in Vt; subst et.
     rewrite (advance_continues _ _ _ _ _ _ R0 RT Hle). intros H; inversion H; subst. auto.
+  Qed.
+
+  (* ---------------------------------------------------------------- a rejected seek leaves the cursor where it was *)
+
+  (* For EVERY store (tampered or not), base, cursor and target: when seek_to answers an error, the cursor still
+     holds its previous tick and its previous state (only `replay_base_validated` may have been set).  This is the
+     law restored by /repo commit 7e0a2d4: before it the forward path returned the partially advanced state. *)
+  Lemma seek_to_error_keeps_cursor st b c target e :
+    snd (seek_to st b c target) = Some e ->
+    c_tick (fst (seek_to st b c target)) = c_tick c /\ c_ws (fst (seek_to st b c target)) = c_ws c /\
+    c_pin (fst (seek_to st b c target)) = c_pin c /\ c_mode (fst (seek_to st b c target)) = c_mode c.
+  Proof.
+    unfold Seek.seek_to.
+    destruct (c_pin c <? target); [cbn; auto|].
+    destruct (st_len St P st <? target); [cbn; auto|].
+    destruct (target =? c_tick c).
+    { destruct (negb (c_validated c) && (c_tick c =? 0)); [|cbn; discriminate].
+      destruct (validate_base st b); cbn; [auto|discriminate]. }
+    destruct (should_restore St P st c target).
+    { destruct (replay_at st b target); cbn; [auto|discriminate]. }
+    destruct (if c_validated c then None else validate_base st b); [cbn; auto|].
+    destruct (advance (st_entries st) (c_ws c) (c_tick c) target) as [w [e'|]]; cbn; [auto|discriminate].
   Qed.
 
   (* ---------------------------------------------------------------- cursor invariant *)
@@ -575,18 +630,16 @@ Section SeekProofs.
     (forall t' c', In (t', c') (st_cps st) -> t' <= target -> t' <= start) /\
     (start = 0 /\ w = base_from_initial St b \/ exists hash, In (start, (hash, w)) (st_cps st)).
   Proof.
-    intros Hs Ht. unfold Seek.restore_base.
+    intros Hs Ht R. apply restore_base_cases in R.
     assert (Hlk : lookup_tick target = target + 1).
     { unfold lookup_tick, checked_increment. apply N.ltb_lt in Ht. rewrite Ht. reflexivity. }
     pose proof (cp_before_nearest (st_cps st) (lookup_tick target) Hs) as N.
     destruct (cp_before St (st_cps st) (lookup_tick target)) as [[t [hash cw]]|].
-    - destruct N as (Hin & Hlt & Hmax).
-      destruct (expected_root_at St P st t); [|discriminate].
-      destruct (negb (hash =? n)); [discriminate|]. destruct (negb (ws_root St root cw =? n)); [discriminate|].
-      intros H; inversion H; subst. rewrite Hlk in *. split; [lia|]. split.
+    - destruct N as (Hin & Hlt & Hmax). destruct R as (-> & -> & _).
+      rewrite Hlk in *. split; [lia|]. split.
       + intros t' c' Hin' Hle. eapply Hmax; eauto. lia.
       + right. exists hash. exact Hin.
-    - intros H; inversion H; subst. split; [lia|]. split.
+    - destruct R as [-> ->]. split; [lia|]. split.
       + intros t' c' Hin' Hle. exfalso. eapply N; eauto. rewrite Hlk. lia.
       + left. auto.
   Qed.
@@ -650,7 +703,9 @@ Section SeekProofs.
     exists p a, e_patch e = Some p /\ artifacts i e p = inr a /\ ws_hist w' = ws_hist w ++ [a] /\
                 ws_last w' = ws_last w /\ ws_mat w' = ws_mat w /\ ws_tx w' = ws_tx w.
   Proof.
-    unfold Seek.advance_one. destruct (e_patch e) as [p|]; [|discriminate].
+    unfold Seek.advance_one. destruct (negb (e_tick e =? i)); [discriminate|].
+    destruct (negb (parent_linked St P e w)); [discriminate|].
+    destruct (e_patch e) as [p|]; [|discriminate].
     destruct (apply (ws_state w) p) as [s'|s']; [|discriminate].
     destruct (negb (root s' =? e_root e)); [discriminate|].
     destruct (negb (commit_hash (root s') (e_parents e) (e_pdig e) (p_policy p) =? e_commit e)); [discriminate|].
@@ -853,13 +908,21 @@ Section SeekProofs.
       inversion H; subst. apply IH in L. cbn. destruct L. split; congruence.
   Qed.
 
+  (* the state's last replayed commit is the tip the live run appends onto *)
+  Definition tip_is (w : wstate) (parent : option N) : Prop :=
+    match parent with
+    | Some c => exists a, last_opt (ws_hist w) = Some a /\ a_commit a = c
+    | None => ws_hist w = []
+    end.
+
   Lemma live_run_loop ps : forall n s i parent es ss pre w l,
     live_run s i parent ps = Some (es, ss) ->
     Forall (fun po => patch_wf (fst po)) ps ->
     lenN pre = i -> i + N.of_nat (length ps) < u64_max -> ws_state w = s -> (n <= length ps)%nat ->
+    tip_is w parent ->
     exists w' l', advance_loop (pre ++ es) n i w l = (w', l', None) /\ ws_state w' = nth n (s :: ss) s.
   Proof.
-    induction ps as [|[p out] r IH]; intros n s i parent es ss pre w l H WF Hpre Hlt Hw Hn.
+    induction ps as [|[p out] r IH]; intros n s i parent es ss pre w l H WF Hpre Hlt Hw Hn Htip.
     - cbn in Hn. assert (n = O) by lia. subst n. cbn. eauto.
     - destruct n as [|n']; [cbn; eauto|].
       cbn [Seek.live_run] in H. destruct (apply s p) as [s'|s'] eqn:AP; [|discriminate].
@@ -872,15 +935,21 @@ Section SeekProofs.
       { unfold nthN. rewrite nth_error_app2 by (unfold lenN in Hpre; lia).
         replace (N.to_nat i - length pre)%nat with O by (unfold lenN in Hpre; lia). reflexivity. }
       rewrite En.
-      assert (A1 : exists a, advance_one i e w = (push_art St (set_state St w s') a, None)).
-      { clear L En. subst e. unfold Seek.advance_one. cbn [e_patch Seek.record_entry]. rewrite Hw, AP.
+      assert (A1 : exists a, advance_one i e w = (push_art St (set_state St w s') a, None) /\ a_commit a = e_commit e).
+      { clear L En. subst e. unfold Seek.advance_one. cbn [e_tick Seek.record_entry]. rewrite N.eqb_refl. cbn [negb].
+        assert (PL : parent_linked St P (record_entry i s' parent p out) w = true).
+        { unfold Seek.parent_linked. cbn [e_parents Seek.record_entry]. destruct parent as [c|]; cbn in Htip.
+          - destruct Htip as (a0 & -> & <-). cbn. rewrite N.eqb_refl. reflexivity.
+          - rewrite Htip. reflexivity. }
+        rewrite PL. cbn [negb].
+        cbn [e_patch Seek.record_entry]. rewrite Hw, AP.
         cbn [e_root e_parents e_pdig e_commit Seek.record_entry]. rewrite !N.eqb_refl. cbn [negb].
         unfold Seek.artifacts. cbn [e_pdig e_receipt e_commit e_root Seek.record_entry].
         rewrite N.eqb_refl, WF1, N.eqb_refl. cbn [negb].
         unfold checked_increment. cbn [length] in Hlt.
         assert (Hi : i <? u64_max = true) by (apply N.ltb_lt; lia). rewrite Hi. rewrite !N.eqb_refl. cbn [negb].
-        eexists. reflexivity. }
-      destruct A1 as [a A1]. rewrite A1.
+        eexists. split; [reflexivity|]. reflexivity. }
+      destruct A1 as (a & A1 & Ha). rewrite A1.
       cbn [length] in Hlt, Hn.
       destruct (IH n' s' (i + 1) (Some (e_commit e)) es' ss' (pre ++ [e]) (push_art St (set_state St w s') a) (Some e) L WF2)
         as (w' & l' & Hloop & Hst).
@@ -888,6 +957,7 @@ Section SeekProofs.
       + lia.
       + reflexivity.
       + lia.
+      + cbn. exists a. split; [apply last_opt_app|exact Ha].
       + rewrite <- app_assoc in Hloop. cbn [app] in Hloop. exists w', l'. split; [exact Hloop|].
         change (nth (Datatypes.S n') (s :: s' :: ss') s) with (nth n' (s' :: ss') s). rewrite Hst. apply nth_indep.
         apply live_run_length in L. destruct L as [_ Hss]. cbn [length]. lia.
@@ -911,6 +981,7 @@ Section SeekProofs.
       - unfold lenN in Hlt. lia.
       - exact Hb.
       - unfold lenN in Ht. lia.
+      - reflexivity.
       - cbn [app] in Hloop. rewrite Hloop. cbn [fst snd]. split; [reflexivity|].
         unfold Seek.finalize. destruct (t =? 0); cbn; exact Hst. }
     split.
